@@ -50,10 +50,11 @@ except:
     Decimal = type(None)
 
 #%%
-def _comparand(x):
+def _comparand(x, obj=None):
     # a python integer beyond the range of doubles compares with any stored value like an infinity of its sign
-    # (numpy would try to convert it: OverflowError: int too large to convert to float)
-    if type(x) is int and abs(x) >= 2**1023:
+    # (numpy would try to convert it: OverflowError: int too large to convert to float); an object whose own word reaches that far
+    # compares its python integers as they are
+    if type(x) is int and abs(x) >= 2**1023 and (obj is None or not isinstance(obj.n_word, int) or not isinstance(obj.n_frac, int) or obj.n_word - obj.n_frac < 1023):
         return float('inf') if x > 0 else -float('inf')
     return x
 
@@ -1671,32 +1672,32 @@ class Fxp():
     def __lt__(self, x):
         if isinstance(x, Fxp):
             x = x.get_val()
-        return self.get_val() < _comparand(x)
+        return self.get_val() < _comparand(x, self)
 
     def __le__(self, x):
         if isinstance(x, Fxp):
             x = x.get_val()
-        return self.get_val() <= _comparand(x)
+        return self.get_val() <= _comparand(x, self)
 
     def __eq__(self, x):
         if isinstance(x, Fxp):
             x = x.get_val()
-        return self.get_val() == _comparand(x)
+        return self.get_val() == _comparand(x, self)
 
     def __ne__(self, x):
         if isinstance(x, Fxp):
             x = x.get_val()
-        return self.get_val() != _comparand(x)
+        return self.get_val() != _comparand(x, self)
 
     def __gt__(self, x):
         if isinstance(x, Fxp):
             x = x.get_val()
-        return self.get_val() > _comparand(x)
+        return self.get_val() > _comparand(x, self)
 
     def __ge__(self, x):
         if isinstance(x, Fxp):
             x = x.get_val()
-        return self.get_val() >= _comparand(x)
+        return self.get_val() >= _comparand(x, self)
 
     # indexation
     def __getitem__(self, index):
@@ -1925,6 +1926,9 @@ class Fxp():
 
     def _wrapped_numpy_func(self, func, *args, **kwargs):
         # convert func inputs to numpy arrays
+        if func in (np.less, np.less_equal, np.equal, np.not_equal, np.greater, np.greater_equal):
+            # (the relations dispatched by numpy take huge python integers like the operators do)
+            args = [_comparand(arg, self) for arg in args]
         args = [np.asarray(arg) if isinstance(arg, self.__class__) else arg for arg in args]
 
         # out parameter extraction if Fxp
